@@ -8,7 +8,7 @@ this one function are folded over the given values.  The result is the set of
 *traces* (calls with folded arguments, stores to fields with folded values,
 returned value) the function can take for that input.
 """
-from .ir import walk, strip, const_eval, show, callee_name, callee_slot, int_type, binop, _wrap
+from .ir import walk, strip, const_eval, show, callee_name, callee_slot, int_type, binop, _wrap, is_pointer
 from .canon import Canon
 from .front import AnalysisBroken
 
@@ -34,6 +34,12 @@ class Trace(object):
         return [e for e in self.events if e[0] == 'store']
 
 
+class _Fork(Exception):
+    def __init__(self, n):
+        Exception.__init__(self)
+        self.n = n
+
+
 class PEval(object):
     def __init__(self, model, fname):
         self.m = model
@@ -49,8 +55,123 @@ class PEval(object):
         self.keep_prefixes = ()      # env paths (inputs such as the received frame) that calls do not invalidate
         self.store_filter = None     # optional: (path string, field) -> record the store event?
         self.record_sets = True
+        self.inline = True           # fold direct calls to static helpers of the same unit through their bodies
+        self.inline_names = set()    # further callees a rule wants folded through
+        self.depth = 0
+        self._subs = {}
 
-    # ------------------------------------------------------------ expression folding
+    # ------------------------------------------------------------ inlining of static helpers
+    def _inlinable(self, name, n):
+        if not self.inline or name is None or self.depth >= 4:
+            return False
+        fn = self.m.funcs.get(name)
+        if fn is None or name == self.fname:
+            return False
+        if not (self.m.is_new_helper(name) or name in self.inline_names):
+            return False
+        if name in self.callvals or any(k.startswith(name + '#') for k in self.callvals):
+            return False          # the rule binds the call's result itself: keep it opaque
+        return True
+
+    def _path_map(self, fn, n, nid):
+        """[(caller prefix, callee prefix)] for pointer parameters, {callee '*p' path: caller local decl id}"""
+        pm = []
+        outv = {}
+        for i, prm in enumerate(fn.params):
+            if i >= len(n.kids) - 1 or not is_pointer(prm[2]):
+                continue
+            a = strip(n.kids[1 + i])
+            if a.k == 'un' and a.op == '&' and strip(a.kids[0]).k == 'ref' and strip(a.kids[0]).refk in ('VarDecl', 'ParmVarDecl'):
+                outv['*' + prm[0]] = strip(a.kids[0]).ref
+                continue
+            c = self.cn.canon(nid, a)
+            if c is None:
+                continue
+            if c[3]:
+                pm.append((c[0] + '.', prm[0] + '->'))
+                pm.append((c[0], '*' + prm[0]))
+            else:
+                pm.append((c[0] + '->', prm[0] + '->'))
+                pm.append((c[0] + '[', prm[0] + '['))
+                pm.append(('*' + c[0], '*' + prm[0]))
+        pm.sort(key=lambda t: -len(t[0]))
+        return pm, outv
+
+    @staticmethod
+    def _xlate(path, pm, fwd):
+        for a, b in pm:
+            src, dst = (a, b) if fwd else (b, a)
+            if src.endswith(('>', '.', '[')):
+                if path.startswith(src):
+                    return dst + path[len(src):]
+            elif path == src:
+                return dst
+        return None
+
+    def _inline_call(self, name, n, nid, args, env, events):
+        """-> list of (ret value, callee events, {caller path: value}, {caller local id: value}) per callee path"""
+        fn = self.m.funcs[name]
+        sub = self._subs.get(name)
+        if sub is None:
+            sub = PEval(self.m, name)
+            sub.depth = self.depth + 1
+            sub.inline_names = self.inline_names
+            self._subs[name] = sub
+        sub.record_sets = False
+        pm, outv = self._path_map(fn, n, nid)
+        inputs = {}
+        for i, prm in enumerate(fn.params):
+            if i < len(args) and args[i] is not None:
+                inputs[prm[0]] = args[i]
+        for k, v in env.items():
+            if k[0] == 'p':
+                t = self._xlate(k[1], pm, True)
+                if t is not None:
+                    inputs[t] = v
+        for cp, vid in outv.items():
+            if ('v', vid) in env:
+                inputs[cp] = env[('v', vid)]
+        keep = []
+        for kp in self.keep_prefixes:
+            for a, b in pm:
+                if kp.startswith(a):
+                    keep.append(b + kp[len(a):])
+                elif a.startswith(kp):
+                    keep.append(b)
+        sub.keep_prefixes = tuple(keep)
+        for k, v in self.callvals.items():
+            if k.startswith('post:') and isinstance(v, dict):
+                v = dict((self._xlate(pk, pm, True) or pk, pv) for pk, pv in v.items())
+            inputs[k if k.startswith(('out:', 'post:')) else 'call:' + k] = v
+        trs = sub.run(inputs, events0=events)
+        outs = []
+        for t in trs:
+            evs = []
+            for e in t.events[len(events):]:
+                if e[0] == 'store':
+                    key = self._xlate(e[1], pm, False) if e[1] != '?' else '?'
+                    if key is None:
+                        if e[1] in outv:
+                            continue
+                        key = '%s:%s' % (name, e[1])
+                    if self.store_filter is None or self.store_filter(key, e[4]):
+                        evs.append(('store', key, e[2], e[3], e[4], e[5]))
+                elif e[0] in ('call', 'br'):
+                    evs.append(e)
+            back = {}
+            backv = {}
+            for k, v in t.env.items():
+                if k[0] != 'p':
+                    continue
+                if k[1] in outv:
+                    backv[outv[k[1]]] = v
+                    continue
+                c = self._xlate(k[1], pm, False)
+                if c is not None:
+                    back[c] = v
+            outs.append((t.ret, evs, back, backv, set(outv.values())))
+        return outs
+
     def ev(self, x, env, nid):
         if x is None:
             return None
@@ -298,11 +419,29 @@ class PEval(object):
         if self.store_filter is None or self.store_filter(key, fld):
             events.append(('store', key, val, line, fld, rhs))
 
-    def _exec(self, node, env, events):
+    def _exec_all(self, node, env, events):
+        """all outcomes [(env, events)] of one atomic node; more than one when an inlined helper has several paths"""
+        results = []
+        pending = [()]
+        while pending:
+            ch = pending.pop()
+            e2, ev2 = dict(env), list(events)
+            try:
+                self._exec(node, e2, ev2, list(ch))
+                results.append((e2, ev2))
+            except _Fork as f:
+                for i in range(f.n):
+                    pending.append(ch + (i,))
+            if len(results) + len(pending) > MAX_TRACES:
+                raise AnalysisBroken('peval: too many helper paths in %s' % self.fname)
+        return results
+
+    def _exec(self, node, env, events, choices=None):
         """execute one atomic node on env (in place), append events"""
         x = node.x
         nid = node.id
         order = []
+        ninl = [0]
 
         def po(n):
             # evaluation order; do not descend into conditionally evaluated arms (refused by the CFG builder
@@ -325,8 +464,30 @@ class PEval(object):
                         if t0.k == 'ref' and t0.refk == 'FunctionDecl':
                             name = t0.name
                 tg, ext, descr = self.m.resolve_call(n, self.fn)
+                inl = None
+                if self._inlinable(callee_name(n), n):
+                    outs = self._inline_call(name, n, nid, args, env, events)
+                    j = ninl[0]
+                    ninl[0] += 1
+                    if choices is None:
+                        choices = []
+                    if j < len(choices):
+                        inl = outs[choices[j]] if choices[j] < len(outs) else None
+                    elif len(outs) == 1:
+                        choices.append(0)
+                        inl = outs[0]
+                    elif len(outs) > 1:
+                        raise _Fork(len(outs))
                 nth = sum(1 for e in events if e[0] == 'call' and e[1] == name)
-                events.append(('call', name, args, n.line, n))
+                # values of objects passed by address (`&local`, `&path`): what the callee can read through the pointer
+                pointee = {}
+                for ai, a in enumerate(n.kids[1:]):
+                    a = strip(a)
+                    if a is not None and a.k == 'un' and a.op == '&':
+                        pv = self.ev(a.kids[0], env, nid)
+                        if pv is not None:
+                            pointee[ai] = pv
+                events.append(('call', name, args, n.line, n, pointee))
                 cv = self.callvals.get('%s#%d' % (name, nth), self.callvals.get(name))
                 if cv is not None:
                     env[('c', id(n))] = cv
@@ -348,12 +509,26 @@ class PEval(object):
                 if post:
                     for pk, pv in post.items():
                         env[('p', pk)] = pv
+                if inl is not None:
+                    rv, evs, back, backv, outvars = inl
+                    events.extend(evs)
+                    if rv is not None:
+                        env[('c', id(n))] = rv
+                    for pk, pv in back.items():
+                        env[('p', pk)] = pv
+                    for vid in outvars:
+                        env.pop(('v', vid), None)
+                    for vid, vv in backv.items():
+                        env[('v', vid)] = vv
+                    continue
                 for ai, a in enumerate(n.kids[1:]):
                     a = strip(a)
                     if a.k == 'un' and a.op == '&':
                         t = strip(a.kids[0])
                         if t.k == 'ref':
-                            env.pop(('v', t.ref), None)
+                            tgs = [name] if name in self.m.funcs else (sorted(tg) if (tg and not ext) else None)
+                            if not (tgs and all(t2 in self.m.funcs and not self.m.param_written(t2, ai) for t2 in tgs)):
+                                env.pop(('v', t.ref), None)
                             ov = self.callvals.get('out:%s#%d:%d' % (name, nth, ai),
                                                    self.callvals.get('out:%s:%d' % (name, ai)))
                             if ov is not None:
@@ -392,7 +567,7 @@ class PEval(object):
                 self._store(n.kids[0], v, env, nid, events, n.line)
 
     # ------------------------------------------------------------ exploration
-    def run(self, inputs):
+    def run(self, inputs, events0=None):
         """inputs: {param name or canonical path string: int}. Returns list of Trace."""
         env0 = {}
         self.callvals = {}
@@ -410,11 +585,20 @@ class PEval(object):
         g = self.g
         traces = []
         steps = [0]
-        stack = [(g.entry.id, env0, [], {})]
+        stack = [(g.entry.id, env0, list(events0 or []), {}, False)]
         seen = set()
         while stack:
-            nid, env, events, visits = stack.pop()
+            nid, env, events, visits, done = stack.pop()
             while True:
+                if not done and g.nodes[nid].kind in ('stmt', 'br', 'sw') and g.nodes[nid].x is not None \
+                        and g.nodes[nid].x.k not in ('break', 'cont'):
+                    alts = self._exec_all(g.nodes[nid], env, events)
+                    if not alts:
+                        break
+                    for (e2, ev2) in alts[1:]:
+                        stack.append((nid, e2, ev2, visits, True))
+                    env, events = alts[0]
+                done = False
                 if g.nodes[nid].kind == 'join' and len(g.nodes[nid].pred) > 1:
                     # merge paths that arrive in the same abstract state with the same observable events
                     ek = tuple((e[0], e[1], str(e[2])) for e in events if e[0] in ('call', 'store', 'set'))
@@ -434,33 +618,23 @@ class PEval(object):
                 if visits[nid] > 64:
                     raise AnalysisBroken('peval: loop in %s does not fold (node line %d)' % (self.fname, node.line))
                 if node.kind == 'ret':
-                    rv = None
                     if node.x.kids:
-                        ev2 = list(events)
-                        env = dict(env)
                         # calls inside the return expression
                         class _N(object):
                             pass
                         tmp = _N()
                         tmp.x = node.x.kids[0]
                         tmp.id = node.id
-                        self._exec(tmp, env, ev2)
-                        events = ev2
-                        rv = self.ev(node.x.kids[0], env, node.id)
-                    events = events + [('ret', rv, node.line)]
-                    traces.append(Trace(events, rv, env))
+                        for (e2, ev2) in self._exec_all(tmp, env, events):
+                            rv = self.ev(node.x.kids[0], e2, node.id)
+                            traces.append(Trace(ev2 + [('ret', rv, node.line)], rv, e2))
+                    else:
+                        traces.append(Trace(events + [('ret', None, node.line)], None, env))
                     break
                 if node.kind in ('stmt',):
-                    env = dict(env)
-                    events = list(events)
-                    if node.x.k not in ('break', 'cont'):
-                        self._exec(node, env, events)
                     nid = node.succ[0][0] if node.succ else g.exit.id
                     continue
                 if node.kind == 'br':
-                    env = dict(env)
-                    events = list(events)
-                    self._exec(node, env, events)
                     v = self.ev(node.x, env, node.id)
                     outs = node.succ
                     if v is not None:
@@ -480,15 +654,12 @@ class PEval(object):
                     # undecided: refine env for equality tests against constants on each edge
                     for (t, lab) in outs[1:]:
                         e2 = self._refine(node, lab, dict(env))
-                        stack.append((t, e2, events + [('br', node.x, lab, node.line)], visits))
+                        stack.append((t, e2, events + [('br', node.x, lab, node.line)], visits, False))
                     env = self._refine(node, outs[0][1], env)
                     events = events + [('br', node.x, outs[0][1], node.line)]
                     nid = outs[0][0]
                     continue
                 if node.kind == 'sw':
-                    env = dict(env)
-                    events = list(events)
-                    self._exec(node, env, events)
                     v = self.ev(node.x, env, node.id)
                     outs = node.succ
                     if v is not None:
@@ -499,7 +670,7 @@ class PEval(object):
                     if not outs:
                         break
                     for (t, lab) in outs[1:]:
-                        stack.append((t, dict(env), list(events), visits))
+                        stack.append((t, dict(env), list(events), visits, False))
                     nid = outs[0][0]
                     continue
                 # entry / join
